@@ -43,9 +43,16 @@ func lawUniverse(rnd *lawRand) []lval {
 		{"string:", &tengo.String{Value: ""}}, {"string:a", &tengo.String{Value: "a"}}, {"string:A", &tengo.String{Value: "A"}},
 		{"string:ab", &tengo.String{Value: "ab"}}, {"string:é", &tengo.String{Value: "é"}}, {"string:65", &tengo.String{Value: "65"}},
 		{"string:1.5", &tengo.String{Value: "1.5"}}, {"string:-7", &tengo.String{Value: "-7"}}, {"string:bad\xff", &tengo.String{Value: "bad\xff"}},
+		// spellings that a more liberal parser would accept, and numbers beyond the range of the target type
+		{"string:010", &tengo.String{Value: "010"}}, {"string:0x1f", &tengo.String{Value: "0x1f"}}, {"string:1_000", &tengo.String{Value: "1_000"}},
+		{"string:+5", &tengo.String{Value: "+5"}}, {"string: 5", &tengo.String{Value: " 5"}}, {"string:1e3", &tengo.String{Value: "1e3"}},
+		{"string:1e999", &tengo.String{Value: "1e999"}}, {"string:-1e400", &tengo.String{Value: "-1e400"}}, {"string:1e-999", &tengo.String{Value: "1e-999"}},
+		{"string:2^63", &tengo.String{Value: "9223372036854775808"}}, {"string:-2^63-1", &tengo.String{Value: "-9223372036854775809"}},
+		{"string:Inf", &tengo.String{Value: "Inf"}}, {"string:0x1p-2", &tengo.String{Value: "0x1p-2"}},
 		{"bytes:", &tengo.Bytes{Value: []byte{}}}, {"bytes:a", &tengo.Bytes{Value: []byte("a")}}, {"bytes:ab", &tengo.Bytes{Value: []byte("ab")}},
 		{"bool:true", tengo.TrueValue}, {"bool:false", tengo.FalseValue}, {"undefined", tengo.UndefinedValue},
 		{"time:zero", &tengo.Time{Value: time.Time{}}}, {"time:t1", &tengo.Time{Value: t1}}, {"time:t2", &tengo.Time{Value: t2}},
+		{"time:zero-otherzone", &tengo.Time{Value: time.Time{}.In(time.FixedZone("X", 3600))}},
 		{"time:t1-otherzone", &tengo.Time{Value: t1.In(time.FixedZone("X", 3600))}},
 		{"time:t1+1ns", &tengo.Time{Value: t1.Add(1)}}, {"time:t1+999ms", &tengo.Time{Value: t1.Add(999 * time.Millisecond)}},
 		{"error:e1", e1}, {"error:e1again", e1}, {"error:e2", &tengo.Error{Value: &tengo.String{Value: "x"}}},
